@@ -255,6 +255,9 @@ def run_history_replay(ctx, rs, corr, memo, idents, fallback):
             t = str(m)
             targets += [t, " " + t, t + " ", "+" + t, str(int(m)) + ".", str(int(m)) + ".00"]
     earlier = [x for _s, x in idents]
+    by_norm = {}
+    for y in earlier:
+        by_norm.setdefault(c01.norm_id(y), []).append(y)
     rng.shuffle(earlier)
     targets += earlier if ctx.thorough else earlier[:1200]
     for x in targets:
@@ -269,7 +272,9 @@ def run_history_replay(ctx, rs, corr, memo, idents, fallback):
                 if not bad and first is not None and first != repr(out):
                     bad = f"the same call was answered differently later in the run (state kept between calls): first {first}, now {out!r}"
                 if bad:
-                    coll = [m for m in makers if c01.norm_id(m) == c01.norm_id(x)]
+                    # earlier identifiers with the same text up to blanks / case / sign (makers and main-pass calls): part of the failing input
+                    coll = [m for m in makers if c01.norm_id(m) == c01.norm_id(x)] + \
+                           [y for y in by_norm.get(c01.norm_id(x), []) if not (type(y) is type(x) and y == x)]
                     corr.failures.append({"stream": "history", "case": _case(cov, x, missing, rt, units, coll or makers),
                                           "what": bad + "  [after the earlier calls listed in case.history]", "observed": repr(out)})
 
